@@ -45,9 +45,9 @@ func (e *Engine) onYield(site int, key uint64) bool {
 			}
 		}
 	}
-	if site == siteDelSent {
-		e.log(Ev{Kind: EvHook, Op: evDelQueued, Key: e.logicalKey(key), H: key, Task: -1})
-	}
+	// siteDelSent ("the tombstone has been queued") is logged by the scheduler
+	// (flushNotifies): a sender that was blocked on a full buffer is woken by
+	// the receiver and runs concurrently with it up to this park
 	return true
 }
 
